@@ -533,6 +533,23 @@ def check(ctx):
                     r3.ok("default configuration only under config_file=None")
                 else:
                     r3.bad(V(r3.id, rg.id, "default-with-file", "GenerateConfig::default() is used although a configuration file was given (guards %s)" % conds, c.file, c.line))
+                # ... and only *because* no file is there: a default chosen because other command-line values are present ("everything is given
+                # anyway") skips the discovered file, whose verbose / force / visualizeDeps / typeMappings no flag replaces
+                others = []
+                for (a_, lab_) in rg.edge_dominators(c.bb):
+                    o_, out_ = rg.cond_struct(a_, lab_)
+                    subj = None
+                    if o_[0] == "call" and o_[1].name in ("is_some", "is_none", "is_some_and", "is_none_or") and o_[1].args:
+                        subj = rg.origin(o_[1].args[0])
+                    elif o_[0] in ("arg", "proj"):
+                        subj = o_
+                    while subj is not None and subj[0] in ("proj", "ref") and isinstance(subj[1], tuple):
+                        subj = subj[1]
+                    if subj is not None and subj[0] == "arg" and len(subj) > 2 and subj[2] not in ("config_file",) and rg.arg_count >= subj[1]:
+                        others.append(str(subj[2]))
+                if others:
+                    r3.bad(V(r3.id, rg.id, "default-because-flags-given:%s" % ",".join(sorted(set(others))), "GenerateConfig::default() is chosen under a test of the "
+                             "command-line value(s) %s: a configuration file that discovery would find is skipped, and with it every setting no flag replaces" % sorted(set(others)), c.file, c.line))
     r3.require_floor(8, "override facts")
     check_first_config_wins(P, r3)
     rules.append(r3)
